@@ -1,26 +1,30 @@
 /-
 C20 — the CLI's type registry is a pure, closed function of the crate description.
 
-What is proved here, and about what.  `M.Codegen` has two stages, as the code has (crux_cli/src/codegen/mod.rs:74-113):
-the *filter* (which items are reachable: an edge relation per loaded crate, `Crate.edges`, and which crates get
-loaded, `load`) and the *formatter* (`containers`: edge relation ↦ the `container` relation the registry is
-collected from).  The theorems of this file are about the **formatter stage, for an arbitrary edge relation `E`**
-(any list of pairs of nodes whatsoever — not only the ones a bundled description produces):
+`M.Codegen` has two stages, as the code has (crux_cli/src/codegen/mod.rs:74-113): the *filter* (which items are
+reachable: an edge relation per loaded crate, `Crate.edges`; which crates get loaded, `load`) and the *formatter*
+(`containers`: edge relation ↦ the `container` relation the registry is collected from, `lookup` = the BTreeMap view).
+All theorems are unbounded: any description, any edge relation, any renumbering, any order.
 
-  * `variant_indices`, `variant_declaration_order` — enum keys are 0,…,n-1 and follow the declaration order of the
-     non-skipped variants;
-  * `perm_invariant_partial` — the registry (as a finite map) does not depend on the order of the edge relation;
-  * `renumber_invariant_fmt` — nor on how item ids are numbered (any renumbering injective per crate);
-  * `closed_partial` — it is closed when every referenced type name is the name of a reachable container source.
-
-Each comes with the full statement as a `def … : Prop`; where the full statement is false for the formatter as it is
-written, the negation is proved from a concrete edge relation (`…_full_false`) and the side condition of the partial
-theorem is a decidable check the driver evaluates on every case (`variantsWF`, `cratesWF`, `resolvable`, name
-clashes).  The filter stage and the crate loading loop are executable definitions tied to the real CLI by the
-correspondence check on every run; their invariance under renumbering / reordering / crate order is *checked on the
-real code by the oracle*, and stated below (`renumber_invariant_full`, `perm_invariant_pipeline_full`) but not proved.
+Formatter stage, for an ARBITRARY edge relation `E` (any list of pairs of nodes whatsoever):
+  * `variant_indices`, `variant_declaration_order` — enum keys are 0,…,n-1 in declaration order of the non-skipped variants;
+  * `perm_invariant_partial`   — the registry does not depend on the order of the edge relation;
+  * `renumber_invariant_fmt`   — nor on how item ids are numbered;
+  * `closed_partial`           — it is closed when every referenced type name is the name of a reachable container source.
+Whole pipeline (filter rules, crate loading loop, formatter), for ANY list of crate descriptions:
+  * `renumber_invariant`       — FULL: renumbering the items of every crate by an injective map (ids of items, child id
+                                  lists, ids inside type expressions, summary ids) leaves `registry` unchanged, exactly;
+  * `crate_order_invariant`    — every completed run of the loading loop, whichever pending crate it picks at each step,
+                                  loads the same crates and yields the same registry;
+  * `perm_invariant_pipeline`  — listing items / summaries / external crates / available crates in another order
+                                  yields the same outcome (both fail to load, both panic, or the same registry).
+Full statements are kept as `def … : Prop`; where the full statement is false for the code as written the negation is
+proved from a concrete witness (`…_full_false`) and the side condition of the partial theorem is a decidable check the
+driver evaluates on every case (`cratesWF`, `variantsWF`, `resolvable`, `noClash`). What is NOT proved: fidelity of
+the model to the Rust code (that is what the correspondence check on every run is for), and anything about the hash
+maps of the real implementation (the oracle re-draws their iteration orders on every case).
 -/
-import CruxVerif.Lemmas.Codegen
+import CruxVerif.Lemmas.CodegenOrder
 namespace Props.C20
 open M.Codegen S.Codegen Lemmas.Codegen
 
@@ -125,26 +129,75 @@ theorem renumber_invariant_fmt (σ : String → Nat → Nat) (hσ : ∀ c, Injec
     containers (renEdges σ E) = containers E ∧ panics (renEdges σ E) = panics E :=
   ⟨containers_ren σ hσ E, panics_ren σ hσ E⟩
 
-/-- Full statement, whole pipeline (filter, crate loading, formatter). Not proved: the filter stage is tied to the
-    code by the correspondence check and its invariance is checked on the real CLI by the oracle. -/
-def renumber_invariant_full : Prop :=
-  ∀ (avail : List Crate) (root : String) (σ : String → Nat → Nat), (∀ c, Injective (σ c)) → cratesWF avail = true →
-    ∀ n, (match registry (avail.map fun c => renCrate (σ c.name) c) root, registry avail root with
-          | .ok r, .ok r' => lookup r n = lookup r' n
-          | .errLoad, .errLoad => True
-          | .panic, .panic => True
-          | _, _ => False)
+/-- FULL, whole pipeline (filter rules, crate loading, formatter): for every list of crate descriptions and every
+    renumbering that is injective on each crate (applied to item ids, child id lists, ids inside type expressions and
+    summary ids; crate ids are not item ids), the outcome of `run` is unchanged — the same containers in the same
+    order, the same panic, the same load failure. No side condition. -/
+theorem renumber_invariant (avail : List Crate) (root : String) (σ : String → Nat → Nat) (hσ : ∀ c, Injective (σ c)) :
+    registry (renCrates σ avail) root = registry avail root :=
+  registry_ren σ hσ avail root
 
-/-- Full statement, whole pipeline: permuting items, summaries, external crates and the list of available crates. -/
-def perm_invariant_pipeline_full : Prop :=
-  ∀ (avail avail' : List Crate) (root : String), cratesWF avail = true →
-    (∃ cs : List (Crate × Crate), cs.map (·.1) = avail ∧ (cs.map (·.2)).Perm avail' ∧
-      ∀ p ∈ cs, p.1.name = p.2.name ∧ p.1.items.Perm p.2.items ∧ p.1.summaries.Perm p.2.summaries ∧ p.1.ext.Perm p.2.ext) →
-    ∀ n, (match registry avail root, registry avail' root with
-          | .ok r, .ok r' => lookup r n = lookup r' n
-          | .errLoad, .errLoad => True
-          | .panic, .panic => True
-          | _, _ => False)
+/-! ## independence of the order of loading dependent crates, and of the order of the description's maps -/
+
+/-- The registry of a completed run, whichever pending crate was picked at each step (`Run`), under `cratesWF` (ids
+    unique per crate, crate names distinct) and absence of name clashes: same panic behaviour, same registry. -/
+theorem crate_order_invariant (avail : List Crate) (root : String) (r : Crate) (hwf : cratesWF avail = true)
+    (hr : lookupCrate avail root = some r) (L L' : List Crate) (h : Run avail [r] L) (h' : Run avail [r] L')
+    (hc : NoClash (containers (L.flatMap nodeEdges))) :
+    SameSet L L' ∧ panics (L.flatMap nodeEdges) = panics (L'.flatMap nodeEdges) ∧
+      ∀ n, lookup (containers (L.flatMap nodeEdges)) n = lookup (containers (L'.flatMap nodeEdges)) n := by
+  have hs : SameSet L L' := run_same hr h h'
+  have hE : SameSet (L.flatMap nodeEdges) (L'.flatMap nodeEdges) := hs.flatMap fun _ => SameSet.refl _
+  have hl := (run_spec h (by simpa [lookupCrate_name hr] using hr)).2.1
+  exact ⟨hs, panics_sameSet hE, fun n => lookup_sameSet (containers_sameSet hE (functional_of_lookup hwf hl)) hc n⟩
+
+/-- the model's own loop (`load`, which picks the first pending crate) is one of these runs -/
+theorem load_is_a_run (avail : List Crate) (fuel : Nat) (loaded L : List Crate) (h : load avail fuel loaded = some L) :
+    Run avail loaded L := load_run avail fuel loaded L h
+
+/-- FULL (up to name clashes, which `perm_invariant_full_false` shows cannot be dropped): listing the items, summaries,
+    external crates of every crate and the available crates themselves in another order (`SameAvail`: the two loaders
+    hand out corresponding crates under every name) does not change the outcome of `run`: both runs fail to load, both
+    panic, or both yield the same registry. Side conditions: `cratesWF` on both listings (ids unique per crate, crate
+    names distinct — decidable, evaluated on every case). -/
+theorem perm_invariant_pipeline (avail avail' : List Crate) (root : String) (hwf : cratesWF avail = true)
+    (hwf' : cratesWF avail' = true) (hs : SameAvail avail avail') :
+    match registry avail root, registry avail' root with
+    | .ok r, .ok r' => NoClash r → ∀ n, lookup r n = lookup r' n
+    | .panic, .panic => True
+    | .errLoad, .errLoad => True
+    | _, _ => False := by
+  unfold registry
+  cases h : loadedEdges avail root with
+  | none =>
+    cases h' : loadedEdges avail' root with
+    | none => simp
+    | some E' =>
+      obtain ⟨E, hE⟩ := loadedEdges_complete hs.symm hwf' hwf h'
+      rw [h] at hE; exact absurd hE (by simp)
+  | some E =>
+    obtain ⟨E', h'⟩ := loadedEdges_complete hs hwf hwf' h
+    rw [h']
+    have hE : SameSet E E' := loadedEdges_same hs hwf hwf' h h'
+    have hp : panics E = panics E' := panics_sameSet hE
+    simp only [hp]
+    cases panics E' with
+    | true => simp
+    | false =>
+      simp only [Bool.false_eq_true, if_false]
+      exact fun hc n => lookup_sameSet (containers_sameSet hE (loadedEdges_functional hwf h)) hc n
+
+/-- `SameAvail` holds in particular for two listings of corresponding crates with distinct names, e.g. any permutation
+    of the list of available crates, each crate with its items / summaries / external crates permuted. -/
+theorem sameAvail_of_permuted (avail avail' : List Crate) (hn' : (avail'.map (·.name)).Nodup)
+    (h : ∀ c ∈ avail, ∃ c' ∈ avail', SameCrate c c') (h' : ∀ c' ∈ avail', ∃ c ∈ avail, SameCrate c c') :
+    SameAvail avail avail' := sameAvail_of_corresponding hn' h h'
+
+/-- the order of the edge relation is immaterial for the registry `run` computes, given only `cratesWF` and no clash -/
+theorem perm_invariant_registry (avail : List Crate) (root : String) (E E' : Edges) (hwf : cratesWF avail = true)
+    (h : loadedEdges avail root = some E) (hp : E.Perm E') (hc : NoClash (containers E)) (n : String) :
+    lookup (containers E) n = lookup (containers E') n :=
+  perm_invariant_partial E E' hp (loadedEdges_functional hwf h) hc n
 
 /-! ## closedness -/
 
